@@ -305,9 +305,28 @@ def probe(G):
     for f in (lambda: G.temporal_snapshots_ids(), lambda: G.interactions_per_snapshots(), lambda: list(G.stream_interactions()),
               lambda: G.interactions(), lambda: G.nodes(), lambda: G.number_of_interactions(), lambda: G.degree(),
               lambda: G.interactions_per_snapshots(T_LO - 7), lambda: G.has_interaction(1, 2, T_LO - 7), lambda: G.number_of_nodes(t=1),
-              lambda: G.avg_number_of_nodes(), lambda: G.size()):
+              lambda: G.avg_number_of_nodes(), lambda: G.size(),
+              # neighbourhood / degree / per-node queries and the statistics (anything they memoise must be invalidated by the next mutator)
+              lambda: G.has_node(1, 1), lambda: G.degree(1, 1), lambda: G.degree([1, 2], 0), lambda: G.nodes(t=1),
+              lambda: list(G.neighbors(1, 1)) if not G.is_directed() else (list(G.successors(1, 1)), list(G.predecessors(1, 1)), G.in_degree(1, 1), G.out_degree(1, 1)),
+              lambda: G.get_node_snapshots(1), lambda: G.number_of_interactions(1, 2, 1), lambda: G.interactions(t=1),
+              lambda: G.time_slice(0, 2), lambda: G.inter_event_time_distribution(), lambda: G.inter_event_time_distribution(1),
+              lambda: (G.node_presence(1), G.node_contribution(1), G.edge_contribution(1, 2), G.coverage(), G.pair_density(1, 2), G.node_density(1),
+                       G.density(), G.uniformity(), G.node_pair_uniformity(1, 2)) if not G.is_directed() else None,
+              lambda: _probe_algorithms(G)):
         try:
             f()
+        except Exception:
+            pass
+
+
+def _probe_algorithms(G):
+    import dynetx.algorithms as al
+    if len(G.snapshots) > 12:
+        return                  # (the path algorithms enumerate walks: only on short timelines)
+    for u in list(G.nodes())[:2]:
+        try:
+            al.temporal_dag(G, u)
         except Exception:
             pass
 
